@@ -1,7 +1,7 @@
 (* Property C10 - chain: concatenation in order with strictly sequential evaluation. *)
 From Coq Require Import List Arith Bool.
 Import ListNotations.
-Require Import ScanFull InstsFull Pass C11Groups PassProofs Monitors C02Join C02Merge PassLedger LivePass.
+Require Import ScanFull InstsFull Pass C11Groups PassProofs Monitors C02Join C02Merge PassLedger LivePass PassNoUnwind.
 
 (* [Pc s fin t]: the sequential automaton runC (state = index of the current input; a poll must be of the current input, only an End
    answer advances it) accepts the poll list and ends in the model's index; the results are exactly the items the inputs answered, in that
@@ -48,3 +48,9 @@ Example C10_ends_witness :
   map (fun k => (finished _ (chain_world [[P; I 1; E]; [I 5; E]] (repeat OPollFresh k)), results (strip (tr _ (chain_world [[P; I 1; E]; [I 5; E]] (repeat OPollFresh k)))))) [3; 4] =
     [(false, [OSome None [1]; OSome None [5]]); (true, [OSome None [1]; OSome None [5]; ONone])].
 Proof. vm_compute. split; reflexivity. Qed.
+
+(* chain never unwinds by itself (zero inputs included): an `EEndX` in the history implies that an input's poll panicked *)
+Theorem C10_chain_unwinds_only_on_child_panic scs ops :
+  In EEndX (strip (tr _ (chain_world scs ops))) -> In (EAns APanic) (strip (tr _ (chain_world scs ops))).
+Proof. exact (chain_unwinds_only_on_child_panic scs ops). Qed.
+Print Assumptions C10_chain_unwinds_only_on_child_panic.
